@@ -1,3 +1,4 @@
+import os
 """Unit lists per property and tier (DESIGN.md section 3, appendix E)."""
 
 INFO = {}
@@ -579,7 +580,7 @@ IO_DESC = ('catalogue: array<float3>, array<double1>, constant (2), identity, st
            'over a token-emitting probe backend')
 INFO['C06'] = {
     'bounds': IO_DESC + '; every configuration value and stored scalar a symbolic bit pattern (NaN payloads, signed zeros, subnormals, '
-              'infinities); array length 0..2 quick / 0..3 thorough, geometry-consistent states (extents 1..3 with the storage the library allocates), plus long payloads of exactly 86-90 elements (quick) / up to 300 (thorough): load(dump(f)) bit-identical at every layer and index, reader consumes '
+              'infinities); array length 0..2 quick / 0..3 thorough, geometry-consistent states (extents 1..3 with the storage the library allocates), plus long payloads of exactly 86-90 elements (quick) / up to 300 (thorough), plus payloads one element past every integer literal (16..2048) that the array / binary_io sources of the tree under check contain (candidate block sizes of a chunked reader; none on the pinned tree): load(dump(f)) bit-identical at every layer and index, reader consumes '
               'exactly the written bytes, dump(load(dump(f))) == dump(f) byte for byte',
     'outside': 'arrays longer than the bound; stacks outside the catalogue (covered compositionally by the per-layer probe stacks)',
     'cuts': 'stream model (engine/models.py: istream::read / ostream::write on engine-owned streams); error-message formatting cut',
@@ -621,6 +622,25 @@ def units_C06(tier, seed):
     return U + long_payload_units(tier, 'C06')
 
 
+def io_block_sizes():
+    """integer literals (16..2048) in the array / binary_io sources of the tree under check: candidate block sizes of a chunked
+    reader or writer. Re-derived from the source on every run; the pinned tree has none."""
+    import re
+    root = os.environ.get('VF_REPO', '/repo')
+    out = set()
+    for f in ('lib/core/covfie/core/backend/primitive/array.hpp', 'lib/core/covfie/core/utility/binary_io.hpp'):
+        try:
+            t = open(os.path.join(root, f)).read()
+        except OSError:
+            continue
+        t = re.sub(r'/\*.*?\*/', '', t, flags=re.S)
+        t = re.sub(r'//.*', '', t)
+        t = re.sub(r'"(?:[^"\\]|\\.)*"', '""', t)
+        out |= set(int(m.group(1)) for m in re.finditer(r'(?<![\w.])(\d{2,4})(?:[uU]?[lL]{0,2})\b', t))
+        out |= set(1 << int(m.group(1)) for m in re.finditer(r'\b1[uU]?[lL]{0,2}\s*<<\s*(\d{1,2})', t))
+    return sorted(b for b in out if 16 <= b <= 2048)
+
+
 def long_payload_units(tier, which):
     """array payloads longer than any plausible block size (300 scalars): exact length, all scalars symbolic"""
     th = tier == 'thorough'
@@ -629,9 +649,21 @@ def long_payload_units(tier, which):
     for k, ln in lens:
         U += unit(f'c06_roundtrip_long_{k}_{ln}', 'c06_io.cpp', f'roundtrip_len_h<{k},{ln}>()', sites=[1, 2, 3, 4, 5, 6], weight=ln * 3, timeout=1800,
                   cfg={'sym_cells_cap': 8192})
+    cross = [(3, 35, 86), (35, 3, 86)] + ([(10, 32, 260), (13, 0, 100)] if th else [])
+    # payloads just past every block size the IO sources mention (scalars and whole elements of width 3 and 1)
+    for bsz in io_block_sizes():
+        for k, ln in ((0, bsz // 3 + 1), (11, bsz + 1)):
+            if (k, ln) not in lens and ln > 90:
+                U += unit(f'c06_roundtrip_block{bsz}_{k}_{ln}', 'c06_io.cpp', f'roundtrip_len_h<{k},{ln}>()', sites=[1, 2, 3, 4, 5, 6], weight=ln * 3,
+                          timeout=3000, cfg={'sym_cells_cap': 16384})
+        if bsz // 3 + 1 > 86:
+            cross.append((0, 13, bsz // 3 + 1))          # widening: one path
+            if bsz <= 300:
+                cross.append((13, 0, bsz // 3 + 1))
     if which == 'C07':
-        for a, bb, ln in [(3, 35, 86), (35, 3, 86)] + ([(10, 32, 260), (13, 0, 100)] if th else []):
-            U += unit(f'c07_cross_long_{a}_{bb}_{ln}', 'c06_io.cpp', f'cross_len_h<{a},{bb},{ln}>()', sites=[1, 3, 4], weight=ln * 3, timeout=1800)
+        for a, bb, ln in cross:
+            U += unit(f'c07_cross_long_{a}_{bb}_{ln}', 'c06_io.cpp', f'cross_len_h<{a},{bb},{ln}>()', sites=[1, 3, 4], weight=ln * 3, timeout=3000,
+                      cfg={'sym_cells_cap': 16384})
     return U
 
 
